@@ -70,7 +70,31 @@ def native_dqn_replay(model):
         r = _native_dqn_replay_one(E, tied)
         if r.get("reproduced"):
             return r
-    return r
+    rs = _native_dqn_replay_stateful()
+    return rs if rs.get("reproduced") else r
+
+
+def _native_dqn_replay_stateful():
+    """R1 with STATEFUL Q-policies (the replay buffer stores policy states for them): the generic collaborators evaluated natively (a fixed pseudo-random function of parameters,
+    policy state and observation), states != next_states; the real dqn_loss against the published target evaluated by the same JAX."""
+    from lvc.generic import GenericQPolicy, GPState, PS_DIM
+    rng = np.random.RandomState(5)
+    B = 8
+    pol = GenericQPolicy(Discrete(3), OBS, tag="q", theta=jnp.asarray([0.3, -0.7], f32))
+    tgt = GenericQPolicy(Discrete(3), OBS, tag="q", theta=jnp.asarray([1.1, 0.2], f32))
+    rb = ReplayBuffer(B, OBS, Discrete(3), GPState(jnp.zeros((PS_DIM,), f32)))
+    rb = eqx.tree_at(lambda b: (b.observations, b.next_observations, b.actions, b.rewards, b.dones, b.timeouts, b.states, b.next_states), rb,
+                     (jnp.asarray(rng.randn(B, 2), f32), jnp.asarray(rng.randn(B, 2), f32), jnp.asarray(rng.randint(0, 3, B)), jnp.asarray(rng.randn(B), f32),
+                      jnp.asarray([0, 0, 1, 1, 0, 1, 1, 0], bool), jnp.asarray([0, 1, 0, 1, 0, 0, 1, 1], bool),
+                      GPState(jnp.asarray(rng.randn(B, PS_DIM), f32)), GPState(jnp.asarray(rng.randn(B, PS_DIM), f32))))
+    gamma = 0.9
+    got = float(DQN.dqn_loss(pol, rb, tgt, gamma))
+    exp = float(spec_dqn_loss(pol, rb, tgt, gamma))
+    if not abs(got - exp) <= 1e-4 * (1 + abs(exp)):
+        return dict(reproduced=True, route="R1 (real dqn_loss, stateful Q-policies with policy state != next policy state)",
+                    inputs=dict(dones=np.asarray(rb.dones).tolist(), timeouts=np.asarray(rb.timeouts).tolist(), gamma=gamma, policy="stateful (generic collaborator evaluated natively)"),
+                    observed=dict(loss=got, published=exp))
+    return dict(reproduced=False, note="native loss agrees with the published Double-DQN target with stateful Q-policies")
 
 
 def _native_dqn_replay_one(E, tied):
